@@ -47,7 +47,29 @@ def make_calls(g, cg, pg, rg, doc):
     return calls, {"cond": ct.descr()[:200], "path": pt.descr()[:200], "rules": [r.descr()[:200] for r in rts]}
 
 
+def profiled(executed, fn):
+    """Run fn() recording every function of the valida package that is entered."""
+    import os
+    import sys
+
+    def prof(frame, event, arg):
+        if event == "call":
+            co = frame.f_code
+            f = co.co_filename
+            if f.endswith(".py") and os.sep + "valida" + os.sep in f:
+                q = co.co_qualname.split(".<locals>")[0]
+                if not q.startswith("<"):
+                    executed.add(os.path.basename(f)[:-3] + "." + q)
+    old = sys.getprofile()
+    sys.setprofile(prof)
+    try:
+        return fn()
+    finally:
+        sys.setprofile(old)
+
+
 def run(tier, seed, model_ok, spec_ok, replay=None):
+    executed = set()
     g = Gen(seed)
     cg = CondGen(g)
     pg = PathGen(cg)
@@ -76,7 +98,7 @@ def run(tier, seed, model_ok, spec_ok, replay=None):
             di = g.r.randrange(2)
             before_objs = snap(tuple(shared.values()))
             before_doc_ids = snap(docs[di])
-            out = E.run_outcome(lambda: call(obj, docs[di]))
+            out = E.run_outcome(lambda: profiled(executed, lambda: call(obj, docs[di])))
             dist[label + ":" + ("ok" if out[0] == "ok" else out[1])] += 1
             d = dict(descr, call=label, step=step, doc=jval(pristine[di]))
             if snap(tuple(shared.values())) != before_objs:
@@ -108,7 +130,20 @@ def run(tier, seed, model_ok, spec_ok, replay=None):
             dist["threaded"] += 8
             if got != want:
                 viol.append(dict(descr, kind="direct", what="results under 8 threads differ from the sequential ones"))
-    total = sum(dist.values())
+    # the call graph behind the proof: every function of valida that these calls actually executed must be one the
+    # read-only analysis examined (its by-name resolution of calls, dynamic call targets included, is thereby cross-checked)
+    try:
+        from .. import readonly
+        _prog, _levels, reach, _bodies = readonly.analyse()
+        analysed = {k.replace(".setter", "") for k in reach} | set(readonly.EXEMPT)
+        missing = sorted(f for f in executed if f.split(".")[0] in readonly.MODULES and f not in analysed)
+        dist["functions-executed"] = len(executed)
+        if missing:
+            viol.append({"kind": "direct", "what": "validation executed functions the read-only analysis did not examine (call graph "
+                                                   "incomplete): " + ", ".join(missing[:12])})
+    except readonly.Refused:
+        pass      # reported as a broken tie by the translator step
+    total = sum(v for k, v in dist.items() if k != "functions-executed")
     return {"evaluations": total, "k_cases": 0, "o_cases": total, "nontrivial": sum(c for k, c in dist.items() if k.endswith(":ok")),
             "rule": "histories of 8 (thorough: 20) calls drawn from cond.filter / Data.filter / path.get_data / Data.get / rule.test / "
                     "schema.validate (40% of rules with casts) over ONE pool of shared condition, path, rule and schema objects and "
